@@ -192,4 +192,7 @@ impl VoronoiCell {
     pub fn vh_idx(&self) -> usize {
         self.idx
     }
+    pub fn vh_unconstructed(idx: usize) -> Self {
+        Self::unconstructed(idx)
+    }
 }
